@@ -378,7 +378,9 @@ theorem importSets_succ (hR : StoreRel R) {fuel} (ih : InvAt R fuel) {st sets ac
     rw [evalImportSets] at h
     split at h <;> rename_i he
     · cases h; exact ih.importSet he
-    · exact Inv.trans hR (ih.importSet he) (ih.importSets h)
+    · split at h
+      · cases h; exact ih.importSet he
+      · exact Inv.trans hR (ih.importSet he) (ih.importSets h)
 
 theorem libraryDef_succ (hR : StoreRel R) {fuel} (ih : InvAt R fuel) {st decls r st'}
     (h : evalLibraryDef (fuel + 1) st decls = (r, st')) : Inv R st st' := by
@@ -1575,11 +1577,171 @@ structure ImportSetsSpec (st st' : State) : Prop where
   exports : ∀ n, exportsOf st' n = exportsOf st n
   grow : ∀ n d, libLookup st.instances n = some d → libLookup st'.instances n = some d
 
+end Interp
+
+namespace Lib
+open Interp
+
+/-! ## C12: one name, two different bindings -/
+
+/-- `m` updated at `x` -/
+def upd (m : String → Option Value) (x : String) (w : Value) : String → Option Value :=
+  fun y => if y = x then some w else m y
+
+/-- `S.Clash` relative to what is bound already (`m`), as a recursive test -/
+def clashB (eq : Value → Value → Bool) : (String → Option Value) → S.Bindings → Bool
+  | _, [] => false
+  | m, p :: rest =>
+    (match m p.1 with
+     | some v => !eq v p.2
+     | none => false) || clashB eq (upd m p.1 p.2) rest
+
+theorem override_nil (m : String → Option Value) : S.override (S.asMap []) m = m := by
+  funext x; simp [S.override, S.asMap]
+
+theorem override_cons (m : String → Option Value) (p : String × Value) (a : S.Bindings) :
+    S.override (S.asMap (p :: a)) m = S.override (S.asMap a) (upd m p.1 p.2) := by
+  funext x
+  simp only [S.override, asMap_cons, upd]
+  cases S.asMap a x with
+  | some v => rfl
+  | none => by_cases h : x = p.1 <;> simp [h]
+
+theorem override_none (a : S.Bindings) : S.override (S.asMap a) (fun _ => none) = S.asMap a := by
+  funext x; simp only [S.override]; cases S.asMap a x <;> rfl
+
+theorem clashB_append (eq : Value → Value → Bool) (a b : S.Bindings) (m : String → Option Value) :
+    clashB eq m (a ++ b) = (clashB eq m a || clashB eq (S.override (S.asMap a) m) b) := by
+  induction a generalizing m with
+  | nil => simp [clashB, override_nil]
+  | cons p a ih => simp only [List.cons_append, clashB, ih, override_cons, Bool.or_assoc]
+
+theorem clashB_iff (eq : Value → Value → Bool) (bs : S.Bindings) (m : String → Option Value) :
+    clashB eq m bs = true ↔ ∃ pre x w post v, bs = pre ++ (x, w) :: post ∧
+      S.override (S.asMap pre) m x = some v ∧ eq v w = false := by
+  constructor
+  · induction bs generalizing m with
+    | nil => simp [clashB]
+    | cons p rest ih =>
+      intro h
+      simp only [clashB, Bool.or_eq_true] at h
+      rcases h with h | h
+      · cases hm : m p.1 with
+        | none => simp [hm] at h
+        | some v =>
+          simp only [hm, Bool.not_eq_true'] at h
+          exact ⟨[], p.1, p.2, rest, v, rfl, by rw [override_nil]; exact hm, h⟩
+      · obtain ⟨pre, x, w, post, v, e, hv, he⟩ := ih _ h
+        exact ⟨p :: pre, x, w, post, v, by rw [e]; rfl, by rw [override_cons]; exact hv, he⟩
+  · rintro ⟨pre, x, w, post, v, e, hv, he⟩
+    subst e
+    rw [clashB_append]
+    simp only [clashB, Bool.or_eq_true]
+    right; left
+    simp only [hv, he, Bool.not_false]
+
+theorem clash_iff (eq : Value → Value → Bool) (bs : S.Bindings) :
+    S.Clash eq bs ↔ clashB eq (fun _ => none) bs = true := by
+  rw [clashB_iff]
+  simp only [override_none, S.Clash]
+
+theorem asMap_some_mem {bs : S.Bindings} {x : String} {v : Value} (h : S.asMap bs x = some v) :
+    (x, v) ∈ bs := by
+  induction bs with
+  | nil => simp [S.asMap] at h
+  | cons p rest ih =>
+    rw [asMap_cons] at h
+    cases hr : S.asMap rest x with
+    | some v' => rw [hr] at h; cases h; exact List.mem_cons_of_mem _ (ih hr)
+    | none =>
+      rw [hr] at h
+      by_cases hx : x = p.1
+      · simp only [hx, if_true, Option.some.injEq] at h
+        subst h; subst hx; simp
+      · simp [hx] at h
+
+theorem not_clash_of_compatible {eq : Value → Value → Bool} {bs : S.Bindings} (h : S.Compatible eq bs) :
+    ¬ S.Clash eq bs := by
+  rintro ⟨pre, x, w, post, v, e, hv, he⟩
+  subst e
+  have hp := List.pairwise_append.1 h
+  have := hp.2.2 (x, v) (asMap_some_mem hv) (x, w) (by simp) rfl
+  simp only at this
+  rw [this] at he; cases he
+
+theorem compatible_of_admissible {eq : Value → Value → Bool} {bs : S.Bindings} (h : S.Admissible bs) :
+    S.Compatible eq bs := by
+  unfold S.Admissible List.Nodup at h
+  rw [List.pairwise_map] at h
+  exact h.imp (fun hne he => absurd he hne)
+
+/-- the step of the fold in `evalImportSets` -/
+def mergeStep (eq : Value → Value → Bool) (a : List (String × Value)) (p : String × Value) :
+    Except SErr (List (String × Value)) :=
+  match a.lookup p.1 with
+  | some prev => if eq prev p.2 then .ok (assocInsert a p.1 p.2) else .error (.other, none)
+  | none => .ok (assocInsert a p.1 p.2)
+
+theorem lookup_fun_assocInsert (acc : List (String × Value)) (k : String) (v : Value) :
+    (fun y => (assocInsert acc k v).lookup y) = upd (fun y => acc.lookup y) k v := by
+  funext y; simp [lookup_assocInsert, upd]
+
+theorem foldlM_merge (eq : Value → Value → Bool) : ∀ (defs : S.Bindings) (acc : List (String × Value)),
+    (clashB eq (fun y => acc.lookup y) defs = true ∧
+      defs.foldlM (mergeStep eq) acc = .error (.other, none)) ∨
+    (clashB eq (fun y => acc.lookup y) defs = false ∧
+      defs.foldlM (mergeStep eq) acc = .ok (defs.foldl (fun a p => assocInsert a p.1 p.2) acc)) := by
+  intro defs
+  induction defs with
+  | nil => intro acc; right; exact ⟨rfl, rfl⟩
+  | cons p rest ih =>
+    intro acc
+    rw [List.foldlM_cons, List.foldl_cons]
+    simp only [clashB]
+    have hrest := ih (assocInsert acc p.1 p.2)
+    rw [lookup_fun_assocInsert] at hrest
+    cases hl : acc.lookup p.1 with
+    | none =>
+      simp only [mergeStep, hl, bind, Except.bind, Bool.false_or]
+      exact hrest
+    | some prev =>
+      cases he : eq prev p.2 with
+      | false =>
+        left
+        simp [mergeStep, hl, he, bind, Except.bind]
+      | true =>
+        simp only [mergeStep, hl, he, bind, Except.bind, if_true, Bool.not_true, Bool.false_or]
+        exact hrest
+
+end Lib
+
+
+namespace Interp
+open Lib
+
+theorem evalImportSets_cons_eq (fuel : Nat) (st : State) (s : ImportSet) (rest : List ImportSet)
+    (acc : List (String × Value)) :
+    evalImportSets (fuel + 1) st (s :: rest) acc =
+      match evalImportSet fuel st s with
+      | (.error e, st) => (.error e, st)
+      | (.ok defs, st) =>
+        match defs.foldlM (mergeStep (importEq st)) acc with
+        | .error e => (.error e, st)
+        | .ok acc' => evalImportSets fuel st rest acc' := by
+  rw [evalImportSets]
+  rfl
+
+/-- several ready sets: an error exactly when the concatenated denotations clash with what is
+accumulated already; otherwise the accumulated map extended by them -/
 theorem importSets_spec : ∀ (sets : List ImportSet) (fuel : Nat) (st : State) (acc : List (String × Value))
     (bs : S.Bindings), fuelNeededAll sets ≤ fuel → (∀ s ∈ sets, S.leaf s ∉ st.inProgress) →
     S.denoteAll sets (exportsOf st) = some bs →
-    ∃ st', evalImportSets fuel st sets acc =
-        (.ok (bs.foldl (fun a p => assocInsert a p.1 p.2) acc), st') ∧ ImportSetsSpec st st' := by
+    ∃ st', ImportSetsSpec st st' ∧
+      ((clashB (importEq st) (fun y => acc.lookup y) bs = true ∧
+          evalImportSets fuel st sets acc = (.error (.other, none), st')) ∨
+       (clashB (importEq st) (fun y => acc.lookup y) bs = false ∧
+          evalImportSets fuel st sets acc =
+            (.ok (bs.foldl (fun a p => assocInsert a p.1 p.2) acc), st'))) := by
   intro sets
   induction sets with
   | nil =>
@@ -1587,7 +1749,7 @@ theorem importSets_spec : ∀ (sets : List ImportSet) (fuel : Nat) (st : State) 
     obtain ⟨fuel, rfl⟩ : ∃ k, fuel = k + 1 := ⟨fuel - 1, by simp [fuelNeededAll] at hf; omega⟩
     simp only [S.denoteAll, Option.some.injEq] at hd
     subst hd
-    exact ⟨st, by rw [evalImportSets]; rfl, rfl, fun _ => rfl, fun _ _ h => h⟩
+    exact ⟨st, ⟨rfl, fun _ => rfl, fun _ _ h => h⟩, .inr ⟨rfl, by rw [evalImportSets]; rfl⟩⟩
   | cons s rest ih =>
     intro fuel st acc bs hf hip hd
     obtain ⟨fuel, rfl⟩ : ∃ k, fuel = k + 1 := ⟨fuel - 1, by simp [fuelNeededAll] at hf; omega⟩
@@ -1603,20 +1765,33 @@ theorem importSets_spec : ∀ (sets : List ImportSet) (fuel : Nat) (st : State) 
         simp only [hds, hdr, Option.some.injEq] at hd
         subst hd
         obtain ⟨st1, h1⟩ := importSet_spec s fuel st a hf1 (hip s (by simp)) hds
-        have hip1 : ∀ s' ∈ rest, S.leaf s' ∉ st1.inProgress := by
-          intro s' hs'
-          have : st1.inProgress = st.inProgress := by rw [h1.same]
-          rw [this]; exact hip s' (by simp [hs'])
-        obtain ⟨st2, h2, sp2⟩ := ih fuel st1 (a.foldl (fun a p => assocInsert a p.1 p.2) acc) b hf2 hip1
-          (by rw [denoteAll_congr h1.exports]; exact hdr)
-        refine ⟨st2, ?_, ?_, fun n => (sp2.exports n).trans (h1.exports n),
-          fun n d h => sp2.grow n d (h1.grow n d h)⟩
-        · rw [evalImportSets, h1.eval]
-          simp only [h2, List.foldl_append]
-        · have e1 := h1.same
-          have e2 := sp2.same
-          unfold SameButInstances at *
-          rw [e2, e1]
+        have hsame : st1 = { st with instances := st1.instances } := h1.same
+        have heq : importEq st1 = importEq st := by
+          funext v w; unfold importEq; rw [hsame]
+        have sp1 : ImportSetsSpec st st1 := ⟨h1.same, h1.exports, h1.grow⟩
+        rw [evalImportSets_cons_eq, h1.eval, clashB_append]
+        simp only [heq]
+        rcases foldlM_merge (importEq st) a acc with ⟨hc, hm⟩ | ⟨hc, hm⟩
+        · exact ⟨st1, sp1, .inl ⟨by simp [hc], by rw [hm]⟩⟩
+        · have hip1 : ∀ s' ∈ rest, S.leaf s' ∉ st1.inProgress := by
+            intro s' hs'
+            have : st1.inProgress = st.inProgress := by rw [hsame]
+            rw [this]; exact hip s' (by simp [hs'])
+          obtain ⟨st2, sp2, h2⟩ := ih fuel st1 (a.foldl (fun a p => assocInsert a p.1 p.2) acc) b hf2 hip1
+            (by rw [denoteAll_congr h1.exports]; exact hdr)
+          have hlook : (fun y => (a.foldl (fun a p => assocInsert a p.1 p.2) acc).lookup y) =
+              S.override (S.asMap a) (fun y => acc.lookup y) := by
+            funext y; rw [foldl_assocInsert_lookup]; rfl
+          rw [hlook, heq] at h2
+          have sp : ImportSetsSpec st st2 := by
+            refine ⟨?_, fun n => (sp2.exports n).trans (h1.exports n),
+              fun n d h => sp2.grow n d (h1.grow n d h)⟩
+            have e2 := sp2.same
+            unfold SameButInstances at *
+            rw [e2, hsame]
+          rw [hm, hc]
+          simp only [Bool.false_or, List.foldl_append]
+          exact ⟨st2, sp, h2⟩
 
 
 theorem permOpt_map {a b : Option S.Bindings} (h : S.PermOpt a b) (f : S.Bindings → S.Bindings)
@@ -1755,6 +1930,201 @@ theorem importSet_factors (s : ImportSet) (k : Nat) (st : State) :
       apply List.map_congr_left
       intro b _
       cases pairs.reverse.lookup b.1 <;> rfl
+
+end Interp
+namespace Lib
+open Interp
+
+/-! ## C12: clashes and the order of the export lists -/
+
+theorem any_congr_mem {α} {l : List α} {p q : α → Bool} (h : ∀ a ∈ l, p a = q a) : l.any p = l.any q := by
+  induction l with
+  | nil => rfl
+  | cons a l ih =>
+    rw [List.any_cons, List.any_cons, h a (by simp), ih (fun b hb => h b (by simp [hb]))]
+
+/-- in an admissible list every binding is tested against what was bound BEFORE the list -/
+theorem clashB_admissible (eq : Value → Value → Bool) {a : S.Bindings} (h : S.Admissible a)
+    (m : String → Option Value) :
+    clashB eq m a = a.any (fun p => match m p.1 with | some v => !eq v p.2 | none => false) := by
+  induction a generalizing m with
+  | nil => rfl
+  | cons p rest ih =>
+    have hn : p.1 ∉ rest.map Prod.fst ∧ (rest.map Prod.fst).Nodup := by
+      simpa [S.Admissible] using h
+    rw [clashB, ih hn.2, List.any_cons]
+    congr 1
+    apply any_congr_mem
+    intro q hq
+    have : q.1 ≠ p.1 := by
+      rintro e; exact hn.1 (e ▸ List.mem_map.2 ⟨q, hq, rfl⟩)
+    simp [upd, this]
+
+theorem clashB_perm (eq : Value → Value → Bool) {a b : S.Bindings} (hp : a.Perm b)
+    (ha : S.Admissible a) (m : String → Option Value) : clashB eq m a = clashB eq m b := by
+  have hb : S.Admissible b := (hp.map Prod.fst).nodup_iff.1 ha
+  rw [clashB_admissible eq ha, clashB_admissible eq hb, hp.any_eq]
+
+theorem override_perm {a b : S.Bindings} (hp : a.Perm b) (ha : S.Admissible a)
+    (m : String → Option Value) : S.override (S.asMap a) m = S.override (S.asMap b) m := by
+  funext x; simp only [S.override, asMap_perm hp ha x]
+
+theorem override_append (a c : S.Bindings) (m : String → Option Value) :
+    S.override (S.asMap (a ++ c)) m = S.override (S.asMap c) (S.override (S.asMap a) m) := by
+  funext x
+  simp only [S.override, asMap_append]
+  cases S.asMap c x <;> rfl
+
+/-- if `eq` is transitive on the values involved, "no binding differs from the one before it"
+means "any two bindings of one name are equal" -/
+theorem compatible_of_not_clashB {eq : Value → Value → Bool} {P : Value → Prop}
+    (htrans : ∀ u v w, P u → P v → P w → eq u v = true → eq v w = true → eq u w = true) :
+    ∀ (bs : S.Bindings) (m : String → Option Value), (∀ p ∈ bs, P p.2) → (∀ x v, m x = some v → P v) →
+    clashB eq m bs = false →
+    (∀ p ∈ bs, ∀ v, m p.1 = some v → eq v p.2 = true) ∧ S.Compatible eq bs := by
+  intro bs
+  induction bs with
+  | nil => intro m _ _ _; exact ⟨by simp, List.Pairwise.nil⟩
+  | cons p rest ih =>
+    intro m hP hm hc
+    simp only [clashB, Bool.or_eq_false_iff] at hc
+    obtain ⟨hhead, htail⟩ := hc
+    have hhead' : ∀ v, m p.1 = some v → eq v p.2 = true := by
+      intro v hv; simpa [hv] using hhead
+    have hPp : P p.2 := hP p (by simp)
+    obtain ⟨h1, h2⟩ := ih (upd m p.1 p.2) (fun q hq => hP q (by simp [hq]))
+      (fun x v hx => by
+        simp only [upd] at hx
+        split at hx
+        · cases hx; exact hPp
+        · exact hm x v hx) htail
+    constructor
+    · intro q hq v hv
+      rcases List.mem_cons.1 hq with rfl | hq
+      · exact hhead' v hv
+      · by_cases hx : q.1 = p.1
+        · have e1 := h1 q hq p.2 (by simp [upd, hx])
+          have e2 := hhead' v (hx ▸ hv)
+          exact htrans v p.2 q.2 (hm _ _ hv) hPp (hP q (by simp [hq])) e2 e1
+        · exact h1 q hq v (by simp [upd, hx, hv])
+    · refine List.Pairwise.cons (fun q hq hpq => ?_) h2
+      exact h1 q hq p.2 (by simp [upd, hpq])
+
+theorem compatible_perm {eq : Value → Value → Bool} {a b : S.Bindings} (hp : a.Perm b)
+    (hsymm : ∀ p ∈ a, ∀ q ∈ a, eq p.2 q.2 = true → eq q.2 p.2 = true) (h : S.Compatible eq a) :
+    S.Compatible eq b := by
+  let R : String × Value → String × Value → Prop :=
+    fun p q => p ∈ a → q ∈ a → p.1 = q.1 → eq p.2 q.2 = true
+  have hR : ∀ {x y}, R x y → R y x := fun {x y} hxy hy hx e => hsymm x hx y hy (hxy hx hy e.symm)
+  have h1 : a.Pairwise R := h.imp (fun hpq _ _ e => hpq e)
+  have h2 : b.Pairwise R := (hp.pairwise_iff hR).1 h1
+  exact h2.imp_of_mem (fun hx hy hxy => hxy (hp.mem_iff.2 hx) (hp.mem_iff.2 hy))
+
+theorem pairwise_or {α} {R : α → α → Prop} {l : List α} (h : l.Pairwise R) {x y : α} (hx : x ∈ l)
+    (hy : y ∈ l) (hne : x ≠ y) : R x y ∨ R y x := by
+  induction h with
+  | nil => cases hx
+  | @cons a l ha _ ih =>
+    rcases List.mem_cons.1 hx with rfl | hx' <;> rcases List.mem_cons.1 hy with rfl | hy'
+    · exact absurd rfl hne
+    · exact .inl (ha _ hy')
+    · exact .inr (ha _ hx')
+    · exact ih hx' hy'
+
+theorem asMap_eq_none_iff (bs : S.Bindings) (x : String) : S.asMap bs x = none ↔ x ∉ bs.map Prod.fst := by
+  have := lookup_isSome_iff bs.reverse x
+  simp only [List.map_reverse, List.mem_reverse] at this
+  rw [← this]
+  unfold S.asMap
+  cases List.lookup x bs.reverse <;> simp
+
+/-- compatible binding lists that are permutations of each other are the same map up to `eq` -/
+theorem asMap_perm_compatible {eq : Value → Value → Bool} {a b : S.Bindings} (hp : a.Perm b)
+    (hsymm : ∀ p ∈ a, ∀ q ∈ a, eq p.2 q.2 = true → eq q.2 p.2 = true) (h : S.Compatible eq a) (x : String) :
+    S.asMap a x = S.asMap b x ∨ ∃ v w, S.asMap a x = some v ∧ S.asMap b x = some w ∧ eq v w = true := by
+  cases ha : S.asMap a x with
+  | none =>
+    left
+    have := (asMap_eq_none_iff a x).1 ha
+    exact ((asMap_eq_none_iff b x).2 (fun hm => this ((hp.map Prod.fst).mem_iff.2 hm))).symm
+  | some v =>
+    cases hb : S.asMap b x with
+    | none =>
+      have hv := asMap_some_mem ha
+      have := (asMap_eq_none_iff b x).1 hb
+      exact absurd ((hp.map Prod.fst).mem_iff.1 (List.mem_map.2 ⟨(x, v), hv, rfl⟩)) this
+    | some w =>
+      have hv := asMap_some_mem ha
+      have hw := hp.mem_iff.2 (asMap_some_mem hb)
+      by_cases he : (x, v) = (x, w)
+      · left; cases he; rfl
+      · right
+        refine ⟨v, w, rfl, rfl, ?_⟩
+        rcases pairwise_or h hv hw he with h1 | h1
+        · exact h1 rfl
+        · exact hsymm _ hw _ hv (h1 rfl)
+
+end Lib
+
+namespace Interp
+open Lib
+
+/-- permuted export lists, every set admissible: the same union map AND the same clashes -/
+theorem denoteAll_perm_clash {ex ex' : LibName → Option S.Bindings} (h : S.PermExports ex ex')
+    (eq : Value → Value → Bool) :
+    ∀ (sets : List ImportSet), S.AdmissibleAll sets ex →
+    match S.denoteAll sets ex, S.denoteAll sets ex' with
+    | some a, some b => (∀ m, S.override (S.asMap a) m = S.override (S.asMap b) m) ∧
+        (∀ m, clashB eq m a = clashB eq m b)
+    | none, none => True
+    | _, _ => False := by
+  intro sets
+  induction sets with
+  | nil => intro _; simp [S.denoteAll]
+  | cons s rest ih =>
+    intro hadm
+    have ih' := ih (fun s' hs' => hadm s' (by simp [hs']))
+    have hs := denote_perm h s
+    have hadm_s := hadm s (by simp)
+    simp only [S.denoteAll]
+    cases h1 : S.denote s ex with
+    | none =>
+      cases h2 : S.denote s ex' with
+      | none => simp
+      | some b => simp [h1, h2, S.PermOpt] at hs
+    | some a =>
+      cases h2 : S.denote s ex' with
+      | none => simp [h1, h2, S.PermOpt] at hs
+      | some b =>
+        rw [h1, h2] at hs
+        cases h3 : S.denoteAll rest ex with
+        | none =>
+          cases h4 : S.denoteAll rest ex' with
+          | none => simp
+          | some d => simp [h3, h4] at ih'
+        | some c =>
+          cases h4 : S.denoteAll rest ex' with
+          | none => simp [h3, h4] at ih'
+          | some d =>
+            simp only [h3, h4] at ih'
+            have hov := override_perm hs (hadm_s a h1)
+            have hcl := clashB_perm eq hs (hadm_s a h1)
+            refine ⟨fun m => ?_, fun m => ?_⟩
+            · rw [override_append, override_append, ih'.1, hov m]
+            · rw [clashB_append, clashB_append, hcl m, hov m, ih'.2]
+
+theorem denoteAll_permFlat {ex ex' : LibName → Option S.Bindings} (h : S.PermExports ex ex') :
+    ∀ (sets : List ImportSet), S.PermOpt (S.denoteAll sets ex) (S.denoteAll sets ex') := by
+  intro sets
+  induction sets with
+  | nil => simp [S.denoteAll, S.PermOpt]
+  | cons s rest ih =>
+    have hs := denote_perm h s
+    simp only [S.denoteAll]
+    cases h1 : S.denote s ex <;> cases h2 : S.denote s ex' <;> rw [h1, h2] at hs <;>
+      cases h3 : S.denoteAll rest ex <;> cases h4 : S.denoteAll rest ex' <;> rw [h3, h4] at ih <;>
+      simp_all [S.PermOpt]
+    exact hs.append ih
 
 end Interp
 end Ruschm
